@@ -457,6 +457,9 @@ def handle (line : String) : String :=
   | "trace" :: "writer" :: evs => match evs.mapM parseEv with
     | some es => doTraceWriter es
     | none => "bad-input"
+  | "trace" :: "server" :: evs => match evs.mapM parseEv with
+    | some es => ServerReplay.replay Generated.serverFacts (es.map fun e => ⟨e.label, e.conn, e.req⟩)
+    | none => "bad-input"
   | "trace" :: "conn" :: evs => match evs.mapM parseEv with
     | some es => doTraceConn es
     | none => "bad-input"
